@@ -231,7 +231,97 @@ def _make_ctor(prop, files):
     return constructor_initialisation
 
 
+SENDERS = ("send", "generic_message", "_list_identity", "_send")
+PAYLOAD = ("value", "data", "identity", "session", "responses", "value_bytes")
+
+
+def response_guards(fn):
+    """[(if-node, response name, truthy arm, falsy arm)] for the `if` statements of fn whose test is exactly the truthiness
+    of a local bound from a send-like call (`if response:` / `if not response:`, any number of `not`).  When the tested arm
+    always leaves the block and there is no else, the statements that follow the `if` are the other arm."""
+    names = {a.arg for a in fn.args.args if a.arg in ("response", "resp", "reply")}
+    for n in ast.walk(fn):
+        if isinstance(n, ast.Assign) and len(n.targets) == 1 and isinstance(n.targets[0], ast.Name) and isinstance(n.value, ast.Call):
+            f = n.value.func
+            nm = f.attr if isinstance(f, ast.Attribute) else getattr(f, "id", "")
+            if nm in SENDERS or nm.startswith("_send"):
+                names.add(n.targets[0].id)
+    out = []
+
+    def blocks(node):
+        for field in ("body", "orelse", "finalbody", "handlers"):
+            v = getattr(node, field, None)
+            if isinstance(v, list) and v and isinstance(v[0], ast.stmt):
+                yield v
+            elif isinstance(v, list):
+                for h in v:
+                    if isinstance(h, ast.ExceptHandler):
+                        yield h.body
+
+    def walk_block(stmts):
+        for i, st in enumerate(stmts):
+            if isinstance(st, ast.If):
+                t, neg = st.test, False
+                while isinstance(t, ast.UnaryOp) and isinstance(t.op, ast.Not):
+                    t, neg = t.operand, not neg
+                if isinstance(t, ast.Name) and t.id in names:
+                    other = st.orelse
+                    if not other and st.body and isinstance(st.body[-1], (ast.Raise, ast.Return, ast.Continue, ast.Break)):
+                        other = stmts[i + 1:]
+                    arms = (other, st.body) if neg else (st.body, other)
+                    out.append((st, t.id, arms[0], arms[1]))
+            if not isinstance(st, (ast.FunctionDef, ast.AsyncFunctionDef, ast.ClassDef)):
+                for b in blocks(st):
+                    walk_block(b)
+
+    walk_block(fn.body)
+    return out
+
+
+def _arm_facts(arm, name):
+    raises = bool(arm) and isinstance(arm[-1], ast.Raise)
+    payload = error = False
+    for st in arm:
+        for n in ast.walk(st):
+            if isinstance(n, ast.Attribute) and isinstance(n.ctx, ast.Load) and isinstance(n.value, ast.Name) and n.value.id == name:
+                if n.attr in PAYLOAD:
+                    payload = True
+                elif n.attr == "error":
+                    error = True
+    return raises, payload, error
+
+
+def _make_guard(prop, files):
+    @rule(prop, f"D{int(prop[1:])}.R", "T-TT", floor=0)
+    def response_guard_polarity(ctx):
+        """Where a function branches on the truthiness of a reply it has just received, the arm taken for a valid reply is
+        the one that uses the reply's payload and the arm taken for a failed reply is the one that raises / reports
+        `.error`: an inverted test refuses every valid reply and decodes the failed ones."""
+        n = 0
+        for key, fi in sorted(ctx.model.functions.items()):
+            if fi.module.relpath.replace(os.sep, "/") not in files:
+                continue
+            for i_, (st, name, truthy, falsy) in enumerate(response_guards(fi.node)):
+                n += 1
+                tr, tp, te = _arm_facts(truthy, name)
+                fr, fp, fe = _arm_facts(falsy, name)
+                k_ = f"{key}#reply-guard:{name}:{i_}"
+                if tr and not fr:
+                    ctx.violation(k_, st, f"{fi.qualname}: the arm taken when `{name}` is a valid reply raises, the arm for a failed reply does not: valid replies are refused")
+                elif fp and not tp:
+                    ctx.violation(k_, st, f"{fi.qualname}: the payload of `{name}` is used only on the arm taken when the reply failed")
+                elif te and not fe:
+                    ctx.violation(k_, st, f"{fi.qualname}: `{name}.error` is reported only on the arm taken when the reply is valid")
+                else:
+                    ctx.ok(k_, st, f"`{name}`: valid-reply arm {'uses the payload' if tp else 'continues'}, failed-reply arm {'raises' if fr else 'reports the error' if fe else 'returns'}")
+        if n == 0:
+            ctx.ok(f"{prop}#no-reply-guards", None, "no branch on a reply's truthiness in the anchored files")
+
+    return response_guard_polarity
+
+
 for _prop, _files in sorted(_anchor_files().items()):
+    _make_guard(_prop, set(_files))
     _make(_prop, set(_files))
     _make_attr(_prop, set(_files))
     _make_ctor(_prop, set(_files))
